@@ -713,12 +713,17 @@ impl Scenario for InterpDriver {
         let n_sched = rng.range(1, 10);
         let stdout_on = rng.chance(1, 2);
         let restart_on = rng.chance(1, 3);
+        // API-subset epochs (thorough): every second block of a million consecutive run indices never calls run() - neither in
+        // the schedule nor when live interpreters are driven to their end - so that each worker process lives through a long
+        // stretch of stepping only (state a library keeps per thread or per process between calls gets the chance to build up)
+        let step_only_epoch = tier == Tier::Thorough && (index / 1_000_000) % 2 == 1;
         let mut n_itp = 1u64;
         for _ in 0..n_sched {
             let i = rng.below(n_itp);
             let ev = match rng.weighted(&[25, 20, 20, 8, 10, if stdout_on { 14 } else { 0 }, if stdout_on { 5 } else { 0 }, if restart_on { 8 } else { 0 }]) {
                 0 => json!({"op": "next", "itp": i}),
                 1 => json!({"op": "next_n", "itp": i, "n": rng.range(1, 30)}),
+                2 if step_only_epoch => json!({"op": "next_n", "itp": i, "n": rng.range(1, 60)}),
                 2 => json!({"op": "run", "itp": i}),
                 3 => json!({"op": "peek", "itp": i}),
                 4 => {
@@ -735,7 +740,7 @@ impl Scenario for InterpDriver {
             };
             events.push(ev);
         }
-        Plan { config: json!({"enabled_opcodes": enabled.len(), "well_formed_pct": valid_pct, "with_tx": with_tx, "via_bytes": via_bytes, "stdout_faults": stdout_on}), events }
+        Plan { config: json!({"enabled_opcodes": enabled.len(), "well_formed_pct": valid_pct, "with_tx": with_tx, "via_bytes": via_bytes, "stdout_faults": stdout_on, "step_only_epoch": step_only_epoch}), events }
     }
 
     fn execute(&self, plan: &Plan, ctx: &mut RunCtx) {
@@ -1371,7 +1376,10 @@ impl InterpDriver {
                 }
                 ctx.crumb("drain");
                 let mut guard_steps = 0usize;
-                let use_run = k % 2 == 1;
+                let use_run = k % 2 == 1 && !jbool(&plan.config, "step_only_epoch");
+                if jbool(&plan.config, "step_only_epoch") {
+                    ctx.probe("step_only_epoch_run");
+                }
                 let got = if use_run {
                     match guard(|| it.itp.run()) {
                         Ok(Ok(())) => Outcome::Finished,
